@@ -413,7 +413,7 @@ func TestCheck(t *testing.T) {
 	engines = append(engines, stallEngine(r))
 	engines = append(engines, udpsrv.Engine(r, []string{"twolocal", "closed", "keepalive", "keepalive", "idle"}, 30, 500))
 	r.Main(evid.Meta{
-		Rule:        "stall: the library's own TCP and TLS servers on loopback sockets while 1-4 peers connect and stall (silent, or after the first bytes of a handshake); 1-3 well-behaved clients that connect afterwards are served within seconds (real time; a failure counts only if it reproduces three times in a row). Others: isolation: tcp/server and dtls/server on in-memory listeners in a synctest bubble; 2-4 well-behaved library clients issue numbered requests to an echo handler, interleaved with 1-3 adversaries that write arbitrary bytes, mutated and truncated valid messages, oversize declarations, responses with unknown tokens, unsolicited ACK/RST/signalling messages, their own valid requests, connect-and-stall (a handshake that never completes), connect-and-close and closes, and in a quarter of the cases accept calls of the listener that fail with a transient error (EMFILE, ENFILE, ECONNABORTED) while the listener stays open; every step is followed by quiescence. Metamorphic oracle: every request of a well-behaved client is answered with its own echo (what it would see without the adversaries); Serve has not returned and a client connecting afterwards is served; OnNewConn reported exactly one connection per well-behaved remote address; the handler saw each client's requests on that client's connection and in the order they were sent. real: the loopback udp/server with udp.Dial clients, raw hostile sockets and unicast Discover with several responders (real time), also two concurrent Discover calls with one token. " + udpsrv.Rule + ".  Non-trivial = hostile input delivered between two requests of a well-behaved client; distinct by scenario",
+		Rule:        "stall: the library's own TCP and TLS servers on loopback sockets while 1-4 peers connect and stall (silent, or after the first bytes of a handshake); 1-3 well-behaved clients that connect afterwards are served within seconds (real time; a failure counts only if it reproduces three times in a row). Others: isolation: tcp/server and dtls/server on in-memory listeners in a synctest bubble; 2-4 well-behaved library clients issue numbered requests to an echo handler, interleaved with 1-3 adversaries that write arbitrary bytes, mutated and truncated valid messages, oversize declarations, responses with unknown tokens, unsolicited ACK/RST/signalling messages, their own valid requests, connect-and-stall (a handshake that never completes), connect-and-close and closes, and in a quarter of the cases accept calls of the listener that fail with a transient error (EMFILE, ENFILE, ECONNABORTED) while the listener stays open; every step is followed by quiescence. Metamorphic oracle: every request of a well-behaved client is answered with its own echo (what it would see without the adversaries); Serve has not returned and a client connecting afterwards is served; OnNewConn reported exactly one connection per well-behaved remote address; the handler saw each client's requests on that client's connection and in the order they were sent. real: the loopback udp/server with udp.Dial clients, raw hostile sockets and unicast Discover with several responders (real time), also two concurrent Discover calls with one token; some requests are answered only after the server's handler has itself asked the requesting peer something on that peer's connection (a confirmable or a non-confirmable request). " + udpsrv.Rule + ".  Non-trivial = hostile input delivered between two requests of a well-behaved client; distinct by scenario",
 		Assumptions: []string{"a slow handler starving other peers is not in the statement's list and is not generated", "real-socket sending rates stay far below loopback buffer limits"},
 		Floor:       200,
 	}, engines...)
